@@ -634,55 +634,74 @@ func (f *Fn) ResultFormula(resultIdx int, atoms map[string]bool) (Formula, error
 // conjuncts, so a predicate may be strengthened but never lose the consequent.
 func (f *Fn) PredImplies(r *Rule, resultIdx int, consequent string, label string) bool {
 	key := f.Name + ": " + label
-	atoms := map[string]bool{}
-	got, err := f.ResultFormula(resultIdx, atoms)
-	if err != nil {
-		r.Fail(key, f.P.Pos(f.Body.Pos()), "cannot read %s as a predicate: %v", f.Name, err)
-		return false
+	var msg string
+	for _, expand := range []bool{false, true} {
+		f.ExpandPreds = expand
+		atoms := map[string]bool{}
+		got, err := f.ResultFormula(resultIdx, atoms)
+		f.ExpandPreds = false
+		if err != nil {
+			r.Fail(key, f.P.Pos(f.Body.Pos()), "cannot read %s as a predicate: %v", f.Name, err)
+			return false
+		}
+		want, err := ParseFormula(consequent, atoms)
+		if err != nil {
+			r.Fail(key, f.P.Pos(f.Body.Pos()), "bad formula %q: %v", consequent, err)
+			return false
+		}
+		same, diff := Equivalent(fAnd{got, want}, got, atoms)
+		if same {
+			return true
+		}
+		if msg == "" {
+			msg = fmt.Sprintf("result of %s does not imply %s; atoms in code: %v; counter-example: %s", f.Name, consequent, keysOf(atoms), diff)
+		}
 	}
-	want, err := ParseFormula(consequent, atoms)
-	if err != nil {
-		r.Fail(key, f.P.Pos(f.Body.Pos()), "bad formula %q: %v", consequent, err)
-		return false
-	}
-	if same, diff := Equivalent(fAnd{got, want}, got, atoms); !same {
-		r.Fail(key, f.P.Pos(f.Body.Pos()), "result of %s does not imply %s; atoms in code: %v; counter-example: %s", f.Name, consequent, keysOf(atoms), diff)
-		return false
-	}
-	return true
+	r.Fail(key, f.P.Pos(f.Body.Pos()), "%s", msg)
+	return false
 }
 
 // PredShape checks that result resultIdx of f is equivalent to the expected formula.
 func (f *Fn) PredShape(r *Rule, resultIdx int, expected string, label string, assume ...string) bool {
 	key := f.Name + ": " + label
 	r.AddSites(1)
-	atoms := map[string]bool{}
-	got, err := f.ResultFormula(resultIdx, atoms)
-	if err != nil {
-		r.Fail(key, f.P.Pos(f.Body.Pos()), "predicate not analysable: %v", err)
-		return false
-	}
-	gotAtoms := keysOf(atoms)
-	want, err := ParseFormula(expected, atoms)
-	if err != nil {
-		r.Fail(key, f.P.Pos(f.Body.Pos()), "bad expected formula: %v", err)
-		return false
-	}
-	for _, a := range assume {
-		// semantic constraints between atoms (infeasible combinations are not compared)
-		af, err := ParseFormula(a, atoms)
+	var msg string
+	// second attempt: one-line predicate helpers called by f are replaced by their bodies
+	for _, expand := range []bool{false, true} {
+		f.ExpandPreds = expand
+		atoms := map[string]bool{}
+		got, err := f.ResultFormula(resultIdx, atoms)
+		f.ExpandPreds = false
 		if err != nil {
-			r.Fail(key, f.P.Pos(f.Body.Pos()), "bad assumption formula: %v", err)
+			r.Fail(key, f.P.Pos(f.Body.Pos()), "predicate not analysable: %v", err)
 			return false
 		}
-		got = fAnd{got, af}
-		want = fAnd{want, af}
+		gotAtoms := keysOf(atoms)
+		want, err := ParseFormula(expected, atoms)
+		if err != nil {
+			r.Fail(key, f.P.Pos(f.Body.Pos()), "bad expected formula: %v", err)
+			return false
+		}
+		for _, a := range assume {
+			// semantic constraints between atoms (infeasible combinations are not compared)
+			af, err := ParseFormula(a, atoms)
+			if err != nil {
+				r.Fail(key, f.P.Pos(f.Body.Pos()), "bad assumption formula: %v", err)
+				return false
+			}
+			got = fAnd{got, af}
+			want = fAnd{want, af}
+		}
+		eq, diff := Equivalent(got, want, atoms)
+		if eq {
+			return true
+		}
+		if msg == "" {
+			msg = fmt.Sprintf("result of %s is not equivalent to %s; atoms in code: [%s]; differs at: %s", f.Name, expected, strings.Join(gotAtoms, " ; "), diff)
+		}
 	}
-	if eq, diff := Equivalent(got, want, atoms); !eq {
-		r.Fail(key, f.P.Pos(f.Body.Pos()), "result of %s is not equivalent to %s; atoms in code: [%s]; differs at: %s", f.Name, expected, strings.Join(gotAtoms, " ; "), diff)
-		return false
-	}
-	return true
+	r.Fail(key, f.P.Pos(f.Body.Pos()), "%s", msg)
+	return false
 }
 
 func keysOf(m map[string]bool) []string {
@@ -1086,7 +1105,12 @@ func (f *Fn) loopSelectsAll(r *Rule, sel *Sites, label string, allowErrReturn bo
 // predicates {a, !b}.
 func (f *Fn) EdgesImplyingAny(preds ...AtomPred) map[[2]int]bool {
 	out := map[[2]int]bool{}
-	for _, v := range f.G.Vs {
+	saved := f.ExpandPreds
+	defer func() { f.ExpandPreds = saved }()
+	// each condition is read twice: as written, and with one-line predicate helpers replaced by their bodies
+	for pass := 0; pass < 2*len(f.G.Vs); pass++ {
+		v := f.G.Vs[pass%len(f.G.Vs)]
+		f.ExpandPreds = pass >= len(f.G.Vs)
 		if !v.IsCond {
 			continue
 		}
